@@ -259,7 +259,11 @@ func init() {
 				c.violation("HARNESS", "env: "+err.Error(), nil)
 				continue
 			}
-			ck := e.issueSessionCookie(e.sessionFor(u, time.Hour-3*time.Second))
+			sAgain := e.sessionFor(u, time.Hour-3*time.Second)
+			farOff := time.Now().Add(24 * time.Hour)
+			sAgain.ExpiresOn = &farOff // the tokens inside stay valid: only the credential's own lifetime runs out
+			sAgain.RefreshToken = ""
+			ck := e.issueSessionCookie(sAgain)
 			first := e.do(reqSpec{Target: "/app/x", Cookie: ck})
 			if len(first.Hits) == 0 {
 				c.count("c09:again-first-not-served") // a slow machine: the credential ran out before its first use
